@@ -195,6 +195,9 @@ class Result:
 def model_text(m, limit=40):
     if m is None:
         return ""
+    if isinstance(m, core.TextModel):
+        import re as _re
+        return _re.sub(r"\s+", " ", _re.sub(r";;[^\n]*", "", m.text))[:3000]
     out = []
     for d in m.decls()[:limit]:
         try:
@@ -283,6 +286,12 @@ def verify_contract(contract, want_smt_sample=True, log=None, shard=()):
                     res.skipped += 1      # this obligation already has a counter-model / is already undecided: one witness is enough
                     continue
                 verdict, m, dt = core.solve(ob.pc, ob.goal, contract.solver_timeout_ms)
+                if verdict == "unknown":
+                    verdict, m, dt2 = core.solve_frontend(ob.pc, ob.goal, contract.solver_timeout_ms)
+                    dt += dt2
+                if verdict == "unknown":
+                    verdict, m, dt2 = core.refute_small(ob.pc, ob.goal, ex.lengths)
+                    dt += dt2
                 if verdict == "unknown":
                     verdict, m, dt2 = core.solve(ob.pc, ob.goal, contract.solver_timeout_ms, seed=7)
                     dt += dt2
